@@ -183,8 +183,21 @@ def install_group_oracle(ex, name):
         assert ec2 is ec
         i = g.g if Q is None else g.idx_of_aff(Q[0], Q[1])
         return g.aff(g.mul_idx(m, i))
+    def multi_mult_var(scalars, points, ec_=None, **kw):
+        acc = 0
+        for m, P in zip(scalars, points):
+            i = g.idx_of_aff(P[0], P[1])
+            if not ex.concrete:
+                ex.assume(i >= 0)
+            acc = g.add_idx(acc, g.mul_idx(m, i))
+        return g.aff(acc)
+
+    def double_mult_var(u, H, v, Q, ec_=None, **kw):
+        return multi_mult_var([u, v], [H, Q])
     ex.stub(curve_mod._jac_double_mult, jac_double_mult)
     ex.stub(curve_mod.mult, mult)
+    ex.stub(curve_mod.multi_mult_var, multi_mult_var)
+    ex.stub(curve_mod.double_mult_var, double_mult_var)
     return g
 
 
